@@ -630,3 +630,114 @@ func specIsHex(b byte) bool {
 //@ loop 1 invariant [C18.fresh] intp.ErrorDict != resources[Name("ProcSet")].(Dict)
 //@ loop 1 invariant [C18.fresh] has(resources[Name("ProcSet")].(Dict), Name("CIDInit")) && isType(resources[Name("ProcSet")].(Dict)[Name("CIDInit")], Dict) && fresh(resources[Name("ProcSet")].(Dict)[Name("CIDInit")].(Dict))
 //@ ensures [C18.fresh.procset] has(result.Resources, Name("ProcSet")) && isType(result.Resources[Name("ProcSet")], Dict) && fresh(result.Resources[Name("ProcSet")].(Dict)) && has(result.Resources[Name("ProcSet")].(Dict), Name("CIDInit")) && isType(result.Resources[Name("ProcSet")].(Dict)[Name("CIDInit")], Dict) && fresh(result.Resources[Name("ProcSet")].(Dict)[Name("CIDInit")].(Dict))
+
+// ---------------------------------------------------------------------
+// C04: the tokenizer.  The byte layer is specified through a view of the
+// bytes that are already in memory: first the peeked bytes, then the unread
+// part of the buffer.  avail(s) of them are available without touching the
+// underlying reader; view(s, k) is the k-th upcoming byte.  The contracts of
+// Next / Peek / SkipByte say what they do to this view in clear-text mode
+// (eexec == 0); the lexical functions are then specified byte by byte over
+// the view.  What happens at a buffer boundary is the refill contract (C12).
+
+func avail(s *scanner) int {
+	return len(s.peek) + s.used - s.pos
+}
+
+func view(s *scanner, k int) byte {
+	if k < len(s.peek) {
+		return s.peek[k]
+	}
+	return s.buf[s.pos+k-len(s.peek)]
+}
+
+func viewOK(s *scanner) bool {
+	return s.eexec == 0 && !s.regurgitate
+}
+
+//@ func view
+//@ named
+
+//@ define viewSep(s) = ref(s.peek) != ref(s.buf)
+//@ define viewShift(s, n) = viewOK(s) && viewSep(s) && avail(s) == old(avail(s)) - n && (forall k :: 0 <= k && k < avail(s) ==> view(s, k) == old(view(s, k+n)))
+
+//@ func (*scanner).readByteRaw
+//@ ensures [C04.view.raw] old(!s.regurgitate && s.pos < s.used) ==> result1 == nil && result0 == old(s.buf[s.pos]) && s.pos == old(s.pos) + 1 && s.used == old(s.used) && sameslice(s.buf, old(s.buf)) && sameslice(s.peek, old(s.peek)) && !s.regurgitate && s.eexec == old(s.eexec) && (forall k :: 0 <= k && k < len(s.buf) ==> s.buf[k] == old(s.buf[k])) && (forall k :: 0 <= k && k < len(s.peek) ==> s.peek[k] == old(s.peek[k])) && onlyrefs(s.peek)
+//@ loop 1 invariant [C04.view.raw] old(!s.regurgitate && s.pos < s.used) ==> s.pos == old(s.pos) && s.used == old(s.used) && sameslice(s.buf, old(s.buf)) && sameslice(s.peek, old(s.peek)) && !s.regurgitate && (forall k :: 0 <= k && k < len(s.buf) ==> s.buf[k] == old(s.buf[k])) && (forall k :: 0 <= k && k < len(s.peek) ==> s.peek[k] == old(s.peek[k])) && onlyrefs(s.peek)
+
+//@ func (*scanner).readByte
+//@ ensures [C04.view.byte] old(s.eexec == 0 && !s.regurgitate && s.pos < s.used) ==> result1 == nil && result0 == old(s.buf[s.pos]) && s.pos == old(s.pos) + 1 && s.used == old(s.used) && sameslice(s.buf, old(s.buf)) && sameslice(s.peek, old(s.peek)) && !s.regurgitate && s.eexec == 0 && (forall k :: 0 <= k && k < len(s.buf) ==> s.buf[k] == old(s.buf[k])) && (forall k :: 0 <= k && k < len(s.peek) ==> s.peek[k] == old(s.peek[k])) && onlyrefs(s.peek)
+
+//@ func (*scanner).Next
+//@ ensures [C04.view.next] old(viewOK(s) && viewSep(s) && avail(s) >= 1) ==> result1 == nil && result0 == old(view(s, 0)) && viewShift(s, 1) && onlyrefs(s.peek) && ref(s.peek) == old(ref(s.peek)) && sameslice(s.buf, old(s.buf))
+
+//@ func (*scanner).Peek
+//@ ensures [C04.view.peek] old(viewOK(s) && viewSep(s) && avail(s) >= 1) ==> result1 == nil && result0 == old(view(s, 0)) && viewShift(s, 0) && onlyrefs(old(s.peek)) && (ref(s.peek) == old(ref(s.peek)) || fresh(s.peek)) && sameslice(s.buf, old(s.buf))
+//@ loop 1 invariant [C04.view.peek] old(viewOK(s) && viewSep(s) && avail(s) >= 1) ==> viewShift(s, 0) && onlyrefs(old(s.peek)) && (ref(s.peek) == old(ref(s.peek)) || fresh(s.peek)) && sameslice(s.buf, old(s.buf))
+
+//@ func (*scanner).SkipByte
+//@ ensures [C04.view.skip] old(viewOK(s) && viewSep(s) && avail(s) >= 1) ==> viewShift(s, 1) && onlyrefs(s.peek) && ref(s.peek) == old(ref(s.peek)) && sameslice(s.buf, old(s.buf))
+
+// ReadString (PLRM 3.2.2, literal text strings), one clause per lexical rule.
+// c0, c1, ... are the upcoming bytes at the head of an iteration of the main
+// loop; the clauses hold whenever at least four bytes are in memory.
+//   40 '('  41 ')'  92 '\'  10 LF  13 CR  110 n  114 r  116 t  98 b  102 f
+//@ define consumed(s, n) = viewOK(s) && viewSep(s) && avail(s) == prev(avail(s)) - n && (forall k :: 0 <= k && k < avail(s) ==> view(s, k) == prev(view(s, k+n)))
+//@ define pushed(res, n0, x) = len(res) == n0 + 1 && res[n0] == x
+//@ define isOct(c) = c >= 48 && c <= 55
+//@ define resSep(s, res) = ref(res) == 0 || (ref(res) != ref(s.peek) && ref(res) != ref(s.buf))
+//@ define strHead(s, res, ignoreLF) = viewOK(s) && viewSep(s) && avail(s) >= 4 && resSep(s, res) && !(ignoreLF && view(s, 0) == 10)
+//@ define octHead(s, res, ignoreLF) = strHead(s, res, ignoreLF) && view(s, 0) == 92 && isOct(view(s, 1))
+
+//@ func (*scanner).ReadString
+//@ loop 1 back-when [C04.string.lf-after-cr] prev(viewOK(s) && viewSep(s) && avail(s) >= 4 && resSep(s, res) && ignoreLF && view(s, 0) == 10) ==> len(res) == prev(len(res)) && bracketLevel == prev(bracketLevel) && consumed(s, 1)
+//@ loop 1 back-when [C04.string.open] prev(strHead(s, res, ignoreLF) && view(s, 0) == 40) ==> pushed(res, prev(len(res)), 40) && bracketLevel == prev(bracketLevel) + 1 && consumed(s, 1) && !ignoreLF
+//@ loop 1 back-when [C04.string.close] prev(strHead(s, res, ignoreLF) && view(s, 0) == 41) ==> pushed(res, prev(len(res)), 41) && bracketLevel == prev(bracketLevel) - 1 && bracketLevel != 0 && consumed(s, 1) && !ignoreLF
+//@ loop 1 back-when [C04.string.cr] prev(strHead(s, res, ignoreLF) && view(s, 0) == 13) ==> pushed(res, prev(len(res)), 10) && bracketLevel == prev(bracketLevel) && consumed(s, 1) && ignoreLF
+//@ loop 1 back-when [C04.string.plain] prev(strHead(s, res, ignoreLF) && view(s, 0) != 40 && view(s, 0) != 41 && view(s, 0) != 92 && view(s, 0) != 13) ==> pushed(res, prev(len(res)), prev(view(s, 0))) && bracketLevel == prev(bracketLevel) && consumed(s, 1) && !ignoreLF
+//@ loop 1 back-when [C04.string.esc.n] prev(strHead(s, res, ignoreLF) && view(s, 0) == 92 && view(s, 1) == 110) ==> pushed(res, prev(len(res)), 10) && consumed(s, 2)
+//@ loop 1 back-when [C04.string.esc.r] prev(strHead(s, res, ignoreLF) && view(s, 0) == 92 && view(s, 1) == 114) ==> pushed(res, prev(len(res)), 13) && consumed(s, 2)
+//@ loop 1 back-when [C04.string.esc.t] prev(strHead(s, res, ignoreLF) && view(s, 0) == 92 && view(s, 1) == 116) ==> pushed(res, prev(len(res)), 9) && consumed(s, 2)
+//@ loop 1 back-when [C04.string.esc.b] prev(strHead(s, res, ignoreLF) && view(s, 0) == 92 && view(s, 1) == 98) ==> pushed(res, prev(len(res)), 8) && consumed(s, 2)
+//@ loop 1 back-when [C04.string.esc.f] prev(strHead(s, res, ignoreLF) && view(s, 0) == 92 && view(s, 1) == 102) ==> pushed(res, prev(len(res)), 12) && consumed(s, 2)
+//@ loop 1 back-when [C04.string.esc.literal] prev(strHead(s, res, ignoreLF) && view(s, 0) == 92 && (view(s, 1) == 40 || view(s, 1) == 41 || view(s, 1) == 92)) ==> pushed(res, prev(len(res)), prev(view(s, 1))) && consumed(s, 2) && bracketLevel == prev(bracketLevel)
+//@ loop 1 back-when [C04.string.esc.newline] prev(strHead(s, res, ignoreLF) && view(s, 0) == 92 && (view(s, 1) == 10 || view(s, 1) == 13)) ==> len(res) == prev(len(res)) && consumed(s, 2) && ignoreLF == (prev(view(s, 1)) == 13)
+//@ loop 1 back-when [C04.string.esc.other] prev(strHead(s, res, ignoreLF) && view(s, 0) == 92 && !isOct(view(s, 1)) && view(s, 1) != 110 && view(s, 1) != 114 && view(s, 1) != 116 && view(s, 1) != 98 && view(s, 1) != 102 && view(s, 1) != 10 && view(s, 1) != 13) ==> pushed(res, prev(len(res)), prev(view(s, 1))) && consumed(s, 2)
+//@ loop 1 back-when [C04.string.octal1] prev(octHead(s, res, ignoreLF) && !isOct(view(s, 2))) ==> pushed(res, prev(len(res)), prev(view(s, 1)) - 48) && consumed(s, 2)
+//@ loop 1 back-when [C04.string.octal2] prev(octHead(s, res, ignoreLF) && isOct(view(s, 2)) && !isOct(view(s, 3))) ==> pushed(res, prev(len(res)), (prev(view(s, 1)) - 48)*8 + (prev(view(s, 2)) - 48)) && consumed(s, 3)
+//@ loop 1 back-when [C04.string.octal3] prev(octHead(s, res, ignoreLF) && isOct(view(s, 2)) && isOct(view(s, 3))) ==> pushed(res, prev(len(res)), ((prev(view(s, 1)) - 48)*8 + (prev(view(s, 2)) - 48))*8 + (prev(view(s, 3)) - 48)) && consumed(s, 4)
+//@ loop 1 back-when [C04.string.esc.level] prev(strHead(s, res, ignoreLF) && view(s, 0) == 92) ==> bracketLevel == prev(bracketLevel)
+//@ loop 1 back-when [C04.string.prefix] prev(viewOK(s) && viewSep(s) && avail(s) >= 4 && resSep(s, res)) ==> (forall k :: 0 <= k && k < prev(len(res)) && k < len(res) ==> res[k] == prev(res[k]))
+//@ loop 2 invariant [C04.string.octal] outer(octHead(s, res, ignoreLF)) ==> 0 <= i && i <= 2 && viewOK(s) && viewSep(s) && avail(s) == outer(avail(s)) - 2 - i && len(res) == outer(len(res)) && bracketLevel == outer(bracketLevel)
+//@ loop 2 invariant [C04.string.octal.view] outer(octHead(s, res, ignoreLF)) ==> (i == 0 ==> (forall k :: 0 <= k && k < avail(s) ==> view(s, k) == outer(view(s, k+2)))) && (i == 1 ==> (forall k :: 0 <= k && k < avail(s) ==> view(s, k) == outer(view(s, k+3)))) && (i == 2 ==> (forall k :: 0 <= k && k < avail(s) ==> view(s, k) == outer(view(s, k+4))))
+//@ loop 2 invariant [C04.string.octal.value] outer(octHead(s, res, ignoreLF)) ==> (i == 0 ==> oct == outer(view(s, 1)) - 48) && (i == 1 ==> isOct(outer(view(s, 2))) && oct == (outer(view(s, 1)) - 48)*8 + (outer(view(s, 2)) - 48)) && (i == 2 ==> isOct(outer(view(s, 2))) && isOct(outer(view(s, 3))) && oct == ((outer(view(s, 1)) - 48)*8 + (outer(view(s, 2)) - 48))*8 + (outer(view(s, 3)) - 48))
+//@ loop 2 invariant [C04.string.octal.prefix] outer(octHead(s, res, ignoreLF)) ==> sameslice(res, outer(res)) && resSep(s, res) && (forall k :: 0 <= k && k < len(res) ==> res[k] == outer(res[k]))
+
+// isRegular: PLRM 3.2: white space (and all control bytes) and the ten
+// delimiters ( ) < > [ ] { } / % end a token; everything else is regular.
+//@ func isRegular
+//@ ensures [C04.regular] result == (b > 32 && b != 40 && b != 41 && b != 60 && b != 62 && b != 91 && b != 93 && b != 123 && b != 125 && b != 47 && b != 37)
+
+// specHexVal: value of a hexadecimal digit (either case), 255 for other bytes.
+func specHexVal(b byte) byte {
+	switch {
+	case b >= '0' && b <= '9':
+		return b - '0'
+	case b >= 'A' && b <= 'F':
+		return b - 'A' + 10
+	case b >= 'a' && b <= 'f':
+		return b - 'a' + 10
+	}
+	return 255
+}
+
+// ReadHexString (PLRM 3.2.2): white space is skipped, two digits make a byte,
+// high nibble first.
+//@ define hexHead(s, res) = viewOK(s) && viewSep(s) && avail(s) >= 1 && resSep(s, res)
+//@ func (*scanner).ReadHexString
+//@ loop 1 back-when [C04.hex.space] prev(hexHead(s, res) && view(s, 0) <= 32) ==> len(res) == prev(len(res)) && first == prev(first) && hi == prev(hi) && consumed(s, 1)
+//@ loop 1 back-when [C04.hex.high] prev(hexHead(s, res) && first && specHexVal(view(s, 0)) != 255 && view(s, 0) > 32) ==> len(res) == prev(len(res)) && !first && hi == specHexVal(prev(view(s, 0))) * 16 && consumed(s, 1)
+//@ loop 1 back-when [C04.hex.low] prev(hexHead(s, res) && !first && specHexVal(view(s, 0)) != 255 && view(s, 0) > 32) ==> pushed(res, prev(len(res)), prev(hi) | specHexVal(prev(view(s, 0)))) && first && consumed(s, 1)
+//@ loop 1 back-when [C04.hex.reject] prev(hexHead(s, res)) ==> prev(view(s, 0)) <= 32 || specHexVal(prev(view(s, 0))) != 255
+//@ loop 1 back-when [C04.hex.prefix] prev(hexHead(s, res)) ==> (forall k :: 0 <= k && k < prev(len(res)) && k < len(res) ==> res[k] == prev(res[k]))
+//@ loop 1 exit-when [C04.hex.end] prev(hexHead(s, res)) ==> prev(view(s, 0)) == 62 && len(res) == prev(len(res)) && first == prev(first) && hi == prev(hi)
